@@ -310,7 +310,7 @@ def dedupe(rep):
         gs = [(norm(t).replace(" ", ""), s) for t, s in gs0]
         rep.ob("O14.3", "R7", fi, sm is not None, f"append under {gs}", "an element is kept iff it was not seen before")
         adds = [c for c in walk_local(lp) if sm and isinstance(c, ast.Call) and norm(c.func) == f"{sm['seen']}.add" and norm(c.args[0]) == x]
-        rep.ob("O14.3", "R7", fi, len(adds) == 1 and guards_of(pm, adds[0], lp) == guards_of(pm, apps[0], lp), adds[0] if adds else "seen.add", "and is then marked as seen")
+        rep.ob("O14.3", "R7", fi, len(adds) == 1 and [(norm(t), s_) for t, s_ in guards_of(pm, adds[0], lp)] == [(norm(t), s_) for t, s_ in guards_of(pm, apps[0], lp)], adds[0] if adds else "seen.add", "and is then marked as seen")
     rep.ob("O14.3", "R7", fi, OUT is not None and len(rets) == 1, rets[-1] if rets else "return", "the filtered list is returned (no set() round trip, no sort)")
 
 
